@@ -176,6 +176,14 @@ def shard_nodes(r, count):
         elif w < 0.8 and not keyed:
             base = Node('concat', (), [base, Node('list', (tuple(range(3)), 'pickle'))])
             m = n + 3
+        elif w < 0.92 and keyed and n:
+            # a key_zip whose parts list the keys in different (rotated / randomly permuted) orders: positions resolve through the
+            # key order of the first part
+            ks = list(gen_a.KEYS[:n])
+            rot = r.randrange(n)
+            ks2 = ks[rot:] + ks[:rot] if r.random() < 0.5 else r.sample(ks, n)
+            other = Node('dict', (tuple((kk, r.randint(10, 30)) for kk in ks2), 'pickle'))
+            base = Node('keyzip', (), [base, other] + ([Node('dict', (tuple((kk, r.randint(40, 60)) for kk in r.sample(ks, n)), 'pickle'))] if r.random() < 0.3 else []))
         k = r.randint(-1, m + 2)
         out.append(Node('shard', (k, r.randint(-k - 1, k + 1) if k > 0 else 0), [base]))
     return out
